@@ -334,6 +334,21 @@ theorem sub_error_close_pass (layers : List SubLayer) (b : Bool) (n : Nat) :
   | nil => exact ⟨rfl, rfl⟩
   | cons l rest ih => simpa [subscribeErr, closeSub] using ih
 
+/-- **every Close call passes through, also a retried one**: for any sequence of Close calls on any subscriber stack
+    – the wrapped subscriber failing in any pattern – EACH call reaches the wrapped subscriber exactly once and returns
+    that call's own result (a decorator that closes the wrapped subscriber only the first time would swallow the retry) -/
+theorem close_sub_each_call_passes (layers : List SubLayer) (script : List Bool) (n : Nat) :
+    closeSubSeq layers script n =
+      (script.map (fun b => if b then some Err.close else none), n + script.length) := by
+  induction script generalizing n with
+  | nil => simp [closeSubSeq]
+  | cons b rest ih =>
+    simp only [closeSubSeq, (sub_error_close_pass layers b n).2, ih]
+    simp; omega
+
+example : closeSubSeq [.metrics, .transform id] [true, false] 0 = ([some .close, none], 2) := by
+  rw [close_sub_each_call_passes]; rfl
+
 /-- the transparency statements together (name used in DESIGN.md): publisher stacks forward every call once or –
     delay refused – not at all, same topic, same objects, same order, inner result returned; subscriber stacks hand
     over the inner subscriber's objects once each and in order, so settling reaches the inner message; Subscribe
@@ -539,6 +554,25 @@ theorem metrics_subscribe_once (inner : String) (layers : List SubLayer) (m : Ms
 
 example : hasSubMetrics [.metrics, .transform id, .metrics] = true ∧ ({ id := 3, md := [] } : Msg).subMark = false :=
   ⟨rfl, rfl⟩
+
+/-- **counting does not depend on the subscription context**: cancelling the context a message carries, at any
+    point before or after the settlement, changes nothing – the message is counted iff it is settled, with the label
+    of the first settlement -/
+theorem metrics_subscribe_counts_after_cancel (evs : List WEv) :
+    watcherRun evs = watcherRun (evs.filter (· ≠ .cancel)) ∧
+    (watcherRun evs = none ↔ ∀ e ∈ evs, e = .cancel) := by
+  constructor
+  · induction evs with
+    | nil => simp [watcherRun]
+    | cons e rest ih => cases e <;> simp [watcherRun, ih]
+  · induction evs with
+    | nil => simp [watcherRun]
+    | cons e rest ih => cases e <;> simp [watcherRun, ih]
+
+/-- the seeded variant that stops waiting when the context is done loses a message settled after the cancellation -/
+theorem cancel_aware_watcher_undercount_witness :
+    watcherRun [.cancel, .nack] = some false ∧ watcherRunCancelAware [.cancel, .nack] = none := by
+  decide
 
 theorem metrics_subscribe_none (inner : String) (layers : List SubLayer) (m : Msg) (st : Nat → Settle)
     (hm : hasSubMetrics layers = false) : subCounts st (deliver inner layers m).2 = [] := by
